@@ -49,7 +49,7 @@ def replay(ctx, rep):
     if case.get('scenario'):
         return common.scenario_replay(ctx, rep, {'asym': asym_scenarios, 'hierarchy': hierarchy_scenarios,
                                                  'retype': retype_scenarios, 'generic': generic_retype_scenarios,
-                                                 'enum': enum_edit_scenarios})
+                                                 'enum': enum_edit_scenarios, 'slice': slice_scenarios})
     r = krun.Run(case, ['C03']).run()
     for s in r.steps:
         print(s['op'], '->', s['outcome'])
@@ -232,6 +232,28 @@ def asym_scenarios(ctx, out, pid='C03'):
         for step in range(rng.randrange(3, 9)):
             oi = rng.randrange(2, 6)          # a Node of some kind stores through the near end ...
             hi = rng.randrange(0, 2)
+            if not near_many and rng.random() < 0.2:
+                # None is a value of every single-valued reference, whoever the owner is (also one the far end
+                # could never hold): unsetting is always accepted
+                how = rng.choice(['attr', 'eset', 'del'])
+                try:
+                    if how == 'attr':
+                        objs[oi].near = None
+                    elif how == 'eset':
+                        objs[oi].eSet('near', None)
+                    else:
+                        del objs[oi].near
+                    r0 = None
+                except Exception as e:  # noqa
+                    r0 = type(e).__name__
+                hist.append([oi, 'near', 'unset-' + how, None, r0])
+                cnt += 1
+                if r0 is not None:
+                    out.fail({'property': pid, 'clause': 'none-refused', 'near_many': near_many, 'far_many': far_many},
+                             f'{hist[-1]}: unsetting the single-valued near end of a {classes[oi]} gave {r0}',
+                             {'scenario': 'asym', 'seed': ctx.seed, 'tier': ctx.tier, 'conf': conf, 'history': [list(h) for h in hist]})
+                    break
+                continue
             through_far = rng.random() < 0.25  # ... or a Holder stores directly into the far end
             if through_far:
                 obj, fname, many, v = objs[hi], 'far', far_many, objs[oi]
@@ -706,3 +728,83 @@ _run4 = run
 def run(ctx, out):   # noqa: F811
     _run4(ctx, out)
     enum_edit_scenarios(ctx, out)
+
+
+def slice_scenarios(ctx, out):
+    """slice assignment on list-based (non-unique) many-valued ATTRIBUTES: what is stored are the items of the
+    right-hand side (a list, a tuple, a bare str or bytes - which Python iterates item by item); if any item is outside
+    the feature's type the call raises BadValueError and stores nothing; afterwards every stored element conforms."""
+    from harness import common
+    common.use_repo()
+    from pyecore import ecore as E
+    rng = common.rng_for(ctx.seed, 'C03:slice')
+    n = 60 if ctx.tier != 'thorough' else 1500
+    cnt = 0
+    En = E.EEnum('Col', literals=['RED', 'BLUE', 'B'])
+    TYPES = {
+        'enum': (En, lambda v: v in ('RED', 'BLUE', 'B') or v in list(En.eLiterals), ['RED', 'BLUE', 'B']),
+        'int': (E.EInt, lambda v: isinstance(v, int), [1, 2, 97]),
+        'str': (E.EString, lambda v: isinstance(v, str), ['a', 'bc', '']),
+        'byte': (E.EByte, lambda v: isinstance(v, bytes), [b'a', b'xy']),
+    }
+    RHS = [['RED'], ['BLUE', 'RED'], 'BLUE', 'B', 'RED', b'ab', b'', [1, 2], (3,), ['a', 'b'], 'ab', [b'q'], [1, 'a'], ['RED', 5], []]
+    for it in range(n):
+        tn = rng.choice(sorted(TYPES))
+        et, conf, goods = TYPES[tn]
+        A = E.EClass('A')
+        A.eStructuralFeatures.append(E.EAttribute('xs', et, upper=-1, unique=False, ordered=rng.random() < 0.8))
+        a = A()
+        for _ in range(rng.randrange(0, 4)):
+            a.xs.append(rng.choice(goods))
+        hist = [['type', tn], ['start', [repr(x) for x in a.xs]]]
+        for step in range(rng.randrange(1, 5)):
+            rhs = rng.choice(RHS)
+            i = rng.randrange(0, len(a.xs) + 1)
+            j = rng.randrange(i, len(a.xs) + 1)
+            before = list(a.xs)
+            items = list(rhs)
+            ok = all(conf(x) for x in items)
+            try:
+                a.xs[i:j] = rhs
+                raised = None
+            except E.BadValueError:
+                raised = 'BadValueError'
+            except Exception as e:  # noqa
+                raised = type(e).__name__
+            cnt += 1
+            hist.append(['slice', i, j, repr(rhs), raised])
+            after = list(a.xs)
+            case = {'scenario': 'slice', 'seed': ctx.seed, 'tier': ctx.tier, 'history': [list(h) for h in hist]}
+            sig = {'property': 'C03', 'clause': None, 'many': True, 'value': 'slice:' + type(rhs).__name__}
+            bad = [repr(x) for x in after if not conf(x)]
+            if bad:
+                sig['clause'] = 'nonconforming-value-stored'
+                out.fail(sig, f'a.xs[{i}:{j}] = {rhs!r} on a list of {tn}: the feature now holds {bad}', case)
+                break
+            if not ok and raised != 'BadValueError':
+                sig['clause'] = 'not-rejected'
+                out.fail(sig, f'a.xs[{i}:{j}] = {rhs!r} on a list of {tn}: items {items!r} are not all of the type but the call gave {raised}', case)
+                break
+            if not ok and after != before:
+                sig['clause'] = 'rejected-but-changed'
+                out.fail(sig, f'a.xs[{i}:{j}] = {rhs!r} raised BadValueError but the list went from {before!r} to {after!r}', case)
+                break
+            if ok and raised is not None:
+                sig['clause'] = 'conforming-refused'
+                out.fail(sig, f'a.xs[{i}:{j}] = {rhs!r} on a list of {tn}: every item conforms but the call gave {raised}', case)
+                break
+            if ok:
+                want = before[:i] + items + before[j:]
+                if after != want:
+                    sig['clause'] = 'slice-stored-something-else'
+                    out.fail(sig, f'a.xs[{i}:{j}] = {rhs!r}: the list is {after!r}, a Python list would be {want!r}', case)
+                    break
+    out.coverage['slice_assignments_checked'] = cnt
+
+
+_run5 = run
+
+
+def run(ctx, out):   # noqa: F811
+    _run5(ctx, out)
+    slice_scenarios(ctx, out)
